@@ -166,3 +166,67 @@ NOT_APPLICABLE = {
     "C22": "Floating-point formulas (rescale, window level, sigmoid): Verus has no float theory and CBMC's bit-precise floats can only restate the code; the integer LUT index mapping alone does not decide the property. Not attempted.",
     "C34": "check not built yet in this session (planned in DESIGN.md section 7); not claimed until its check runs"
 }
+
+
+# ---------------------------------------------------------------- session 2: units added after the second seed round
+_STANDIN = (" A native enumeration of the compiled code (%s) accompanies the deductive units as a bounded stand-in, never counted as "
+            "proved; it supplies the failing input when a restructuring leaves an extracted-text proof undecided.")
+CHECKS["C01"].update(
+    technique="Kani/CBMC contract harnesses, loop-free over every scalar value and every header, for the basic codecs and header codecs; "
+              "bounded native enumeration at element level (stand-in)",
+    note="Claimed for the scalar/header layer only (DESIGN.md C01). Whole-data-set round trip (tokens, sequences, objects), non-default "
+         "character sets and pixel data are uncovered. Element-level write-then-read is covered only by the native unit C01.elements "
+         "(bounded stand-in, never counted as proved), which exposed defect S16.")
+CHECKS["C04"].update(
+    technique=CHECKS["C04"]["technique"] + "; bounded native enumeration of whole elements judged by an independent layout reader (stand-in)",
+    note=CHECKS["C04"]["note"].replace("list-of-strings and DS/IS-as-text paths, the token-level writer and file writing are uncovered.",
+                                        "list-of-strings and DS/IS-as-text paths are covered only by the native unit C04.elements (bounded); "
+                                        "the token-level writer and file writing are uncovered."))
+CHECKS["C07"].update(
+    technique=CHECKS["C07"]["technique"] + "; the delimiter stack of both token readers (defined-length items and sequences end exactly at "
+              "their length); bounded native enumerations at value and data-set level (stand-ins)",
+    note=CHECKS["C07"]["note"].replace("the token loops of the data set readers that consume sanitize_length's result are not covered.",
+                                        "the token loops of the data set readers are covered only through update_seq_delimiters / "
+                                        "push_sequence_token (Verus) and the native unit C07.dataset (bounded)."))
+CHECKS["C09"].update(
+    technique=CHECKS["C09"]["technique"] + "; bounded native enumerations of written tables and of attribute operations (stand-ins)",
+    note="Only the length computation is decided deductively. Writing / reading back the group and attribute operations are covered only by "
+         "the native units C09.written_length and C09.after_operations (bounded, never counted as proved); preamble handling is uncovered.")
+CHECKS["C11"].update(
+    note=CHECKS["C11"]["note"].replace("Textual numbers and the remaining extend_* methods are uncovered.",
+                                        "Textual numbers, extend_str and numbers appended to textual values are uncovered."))
+CHECKS["C12"].update(
+    technique="Kani/CBMC contract harnesses over all inputs for the constructors; Verus contracts on the extracted partial date/time parsers and "
+              "on AsRange earliest / latest of dates and times; native enumeration of every valid date and fraction-less time (stand-in, "
+              "covers to_encoded)",
+    note="read_number is abstract in the Verus unit; to_encoded (fmt machinery) is covered only by the native unit C12.native; date-time "
+         "values, time zones and range texts are uncovered; chrono constructors are assumed (listed).")
+CHECKS["C18"].update(
+    technique="Verus loop invariants on the extracted default PixelDataWriter::encode, PixelDataObject::frame_pixel_data, "
+              "From<Vec<Fragments>> (any number of frames) and Fragments::new (any size); Kani bounded harnesses and a native enumeration on the "
+              "compiled code (stand-ins)",
+    text="Unbounded proofs (any number of frames, any frame sizes) that the multi-frame encode driver and the Fragments conversion build the "
+         "PS3.5 A.4 basic offset table, that Fragments::new yields even, equal-sized fragments holding the data plus zero padding, and that "
+         "frame_pixel_data returns exactly the fragments the table assigns to a frame.",
+    note="encode_frame, Fragments::len and the chunks_exact iterator chain are abstract callees with their std / documented meaning; the Kani "
+         "and native Fragments units are BOUNDED (listed under coverage.bounded_units) and cross-check those callees on the compiled code. The "
+         "Total-Length attribute set in transcode.rs and native (unencapsulated) frames are not covered.")
+CHECKS["C25"].update(
+    technique=CHECKS["C25"]["technique"] + "; native enumeration of PDUs of every type with an independent PS3.8 length reader (stand-in)",
+    note="Per-type encode/decode bodies of write_pdu/read_pdu are outside both verifiers (Kani ICE, outside Verus' subset) and are covered only "
+         "by the native unit C25.pdus (bounded, never counted as proved); every length field is written by write_chunk_u16/u32 (proved); "
+         "builder closures and byte sinks are abstract.")
+CHECKS["C26"].update(
+    technique="Verus contracts (requires/ensures + representation invariant) on the extracted text of the synchronous P-DATA writer and reader; "
+              "native message-level enumeration of the reader (stand-in)",
+    note=CHECKS["C26"]["note"].replace("Async writer and P-DATA reader are not covered.",
+                                        "The asynchronous writer and reader are not covered; the reader is proved per call (Verus) and "
+                                        "cross-checked at message level by the native unit C26.reader_messages (bounded)."))
+CHECKS["C34"].update(
+    technique=CHECKS["C34"]["technique"] + "; native sweep of the failure offset over whole data sets and files (stand-in)",
+    note=CHECKS["C34"]["note"] + " Whole data sets and files are covered only by the native unit C34.io_failures (every failure offset of two "
+         "small objects; bounded, never counted as proved).")
+CHECKS["C05"].update(
+    technique=CHECKS["C05"]["technique"] + "; native sweep of truncated / mutated inputs through the file, data set and PDU readers (stand-in)",
+    note=CHECKS["C05"]["note"] + " File, data set (eager, lazy) and whole-PDU readers are exercised only by the native unit C05.hostile "
+         "(truncations and single-byte mutations of small inputs; bounded, never counted as proved).")
